@@ -37,13 +37,17 @@ Inductive event :=
 | Fire                                  (* the next pending timer fires *)
 | Advance (d : Z)                       (* d microseconds pass *)
 | Respond (sid : Z) (a : appmsg)        (* the waiting handler number sid returns a response *)
-| RaiseIn (sid : Z) (k : exnkind).      (* the waiting handler number sid raises *)
+| RaiseIn (sid : Z) (k : exnkind)       (* the waiting handler number sid raises *)
+| Refuse (r : Z) (b : bool)             (* from now on the transport refuses (b = true) / accepts datagrams to remote r *)
+| NetError (r : Z).                     (* the transport reports an error about remote r: MessageManager.dispatch_error *)
 
 Inductive exnname := AssertionError | KeyError.
 Inductive output :=
 | Send (t : Z) (r : Z) (w : wire)                              (* message_interface.send *)
 | Start (t : Z) (sid : Z) (r : Z) (mid : Z) (tok : list Z)     (* the site's render_to_pipe is entered: request passed to the application *)
-| Exn (t : Z) (e : exnname).                                   (* exception leaving dispatch_message / a timer callback *)
+| Exn (t : Z) (e : exnname)                                    (* exception leaving dispatch_message / a timer callback *)
+| Refused (t : Z) (r : Z).                                     (* the transport refused the datagram just handed to it and reported that
+                                                                  from inside send() (udp6: sendmsg failing) *)
 
 Notation key := (Z * Z)%type (only parsing).   (* (remote, message id) *)
 Definition key_eqb (a b : Z * Z) : bool := (fst a =? fst b) && (snd a =? snd b).
@@ -84,21 +88,23 @@ Record st := mkst {
   incoming : list ((list Z * Z) * Z);              (* TokenManager.incoming_requests: (token, remote) -> handler number *)
   waiting : list (Z * inmsg);                      (* handlers awaiting the harness: handler number -> its request *)
   next_sid : Z;                                    (* number of requests passed to the site so far *)
+  refused : list Z;                                (* remotes to which the transport currently refuses to send (harness) *)
   outs : list output }.                            (* log of everything observable, in order *)
 
-Definition set_now v s := mkst v (tseq s) (ack_timeout s) (message_id s) (recent s) (forgets s) (timers s) (exchanges s) (backlogs s) (piggy s) (incoming s) (waiting s) (next_sid s) (outs s).
-Definition set_tseq v s := mkst (now s) v (ack_timeout s) (message_id s) (recent s) (forgets s) (timers s) (exchanges s) (backlogs s) (piggy s) (incoming s) (waiting s) (next_sid s) (outs s).
-Definition set_message_id v s := mkst (now s) (tseq s) (ack_timeout s) v (recent s) (forgets s) (timers s) (exchanges s) (backlogs s) (piggy s) (incoming s) (waiting s) (next_sid s) (outs s).
-Definition set_recent v s := mkst (now s) (tseq s) (ack_timeout s) (message_id s) v (forgets s) (timers s) (exchanges s) (backlogs s) (piggy s) (incoming s) (waiting s) (next_sid s) (outs s).
-Definition set_forgets v s := mkst (now s) (tseq s) (ack_timeout s) (message_id s) (recent s) v (timers s) (exchanges s) (backlogs s) (piggy s) (incoming s) (waiting s) (next_sid s) (outs s).
-Definition set_timers v s := mkst (now s) (tseq s) (ack_timeout s) (message_id s) (recent s) (forgets s) v (exchanges s) (backlogs s) (piggy s) (incoming s) (waiting s) (next_sid s) (outs s).
-Definition set_exchanges v s := mkst (now s) (tseq s) (ack_timeout s) (message_id s) (recent s) (forgets s) (timers s) v (backlogs s) (piggy s) (incoming s) (waiting s) (next_sid s) (outs s).
-Definition set_backlogs v s := mkst (now s) (tseq s) (ack_timeout s) (message_id s) (recent s) (forgets s) (timers s) (exchanges s) v (piggy s) (incoming s) (waiting s) (next_sid s) (outs s).
-Definition set_piggy v s := mkst (now s) (tseq s) (ack_timeout s) (message_id s) (recent s) (forgets s) (timers s) (exchanges s) (backlogs s) v (incoming s) (waiting s) (next_sid s) (outs s).
-Definition set_incoming v s := mkst (now s) (tseq s) (ack_timeout s) (message_id s) (recent s) (forgets s) (timers s) (exchanges s) (backlogs s) (piggy s) v (waiting s) (next_sid s) (outs s).
-Definition set_waiting v s := mkst (now s) (tseq s) (ack_timeout s) (message_id s) (recent s) (forgets s) (timers s) (exchanges s) (backlogs s) (piggy s) (incoming s) v (next_sid s) (outs s).
-Definition set_next_sid v s := mkst (now s) (tseq s) (ack_timeout s) (message_id s) (recent s) (forgets s) (timers s) (exchanges s) (backlogs s) (piggy s) (incoming s) (waiting s) v (outs s).
-Definition set_outs v s := mkst (now s) (tseq s) (ack_timeout s) (message_id s) (recent s) (forgets s) (timers s) (exchanges s) (backlogs s) (piggy s) (incoming s) (waiting s) (next_sid s) v.
+Definition set_now v s := mkst v (tseq s) (ack_timeout s) (message_id s) (recent s) (forgets s) (timers s) (exchanges s) (backlogs s) (piggy s) (incoming s) (waiting s) (next_sid s) (refused s) (outs s).
+Definition set_tseq v s := mkst (now s) v (ack_timeout s) (message_id s) (recent s) (forgets s) (timers s) (exchanges s) (backlogs s) (piggy s) (incoming s) (waiting s) (next_sid s) (refused s) (outs s).
+Definition set_message_id v s := mkst (now s) (tseq s) (ack_timeout s) v (recent s) (forgets s) (timers s) (exchanges s) (backlogs s) (piggy s) (incoming s) (waiting s) (next_sid s) (refused s) (outs s).
+Definition set_recent v s := mkst (now s) (tseq s) (ack_timeout s) (message_id s) v (forgets s) (timers s) (exchanges s) (backlogs s) (piggy s) (incoming s) (waiting s) (next_sid s) (refused s) (outs s).
+Definition set_forgets v s := mkst (now s) (tseq s) (ack_timeout s) (message_id s) (recent s) v (timers s) (exchanges s) (backlogs s) (piggy s) (incoming s) (waiting s) (next_sid s) (refused s) (outs s).
+Definition set_timers v s := mkst (now s) (tseq s) (ack_timeout s) (message_id s) (recent s) (forgets s) v (exchanges s) (backlogs s) (piggy s) (incoming s) (waiting s) (next_sid s) (refused s) (outs s).
+Definition set_exchanges v s := mkst (now s) (tseq s) (ack_timeout s) (message_id s) (recent s) (forgets s) (timers s) v (backlogs s) (piggy s) (incoming s) (waiting s) (next_sid s) (refused s) (outs s).
+Definition set_backlogs v s := mkst (now s) (tseq s) (ack_timeout s) (message_id s) (recent s) (forgets s) (timers s) (exchanges s) v (piggy s) (incoming s) (waiting s) (next_sid s) (refused s) (outs s).
+Definition set_piggy v s := mkst (now s) (tseq s) (ack_timeout s) (message_id s) (recent s) (forgets s) (timers s) (exchanges s) (backlogs s) v (incoming s) (waiting s) (next_sid s) (refused s) (outs s).
+Definition set_incoming v s := mkst (now s) (tseq s) (ack_timeout s) (message_id s) (recent s) (forgets s) (timers s) (exchanges s) (backlogs s) (piggy s) v (waiting s) (next_sid s) (refused s) (outs s).
+Definition set_waiting v s := mkst (now s) (tseq s) (ack_timeout s) (message_id s) (recent s) (forgets s) (timers s) (exchanges s) (backlogs s) (piggy s) (incoming s) v (next_sid s) (refused s) (outs s).
+Definition set_next_sid v s := mkst (now s) (tseq s) (ack_timeout s) (message_id s) (recent s) (forgets s) (timers s) (exchanges s) (backlogs s) (piggy s) (incoming s) (waiting s) v (refused s) (outs s).
+Definition set_refused v s := mkst (now s) (tseq s) (ack_timeout s) (message_id s) (recent s) (forgets s) (timers s) (exchanges s) (backlogs s) (piggy s) (incoming s) (waiting s) (next_sid s) v (outs s).
+Definition set_outs v s := mkst (now s) (tseq s) (ack_timeout s) (message_id s) (recent s) (forgets s) (timers s) (exchanges s) (backlogs s) (piggy s) (incoming s) (waiting s) (next_sid s) (refused s) v.
 
 Definition emit (o : output) (s : st) : st := set_outs (outs s ++ [o]) s.
 
@@ -122,8 +128,32 @@ Definition cancel (h : Z) (s : st) : st :=
   set_timers (filter (fun t => negb (snd (fst t) =? h)) (timers s)) s.
 
 (* ------------------------------------------------------------------ outgoing messages *)
-(* messagemanager.py:534 *)
-Definition _send_via_transport (r : Z) (w : wire) (s : st) : st := emit (Send (now s) r w) s.
+(* the stop() closure of TokenManager.process_request (tokenmanager.py:176): the pipe ends, on_end drops the
+   incoming_requests entry, the rendering task is cancelled *)
+Definition stop_incoming (ik : list Z * Z) (sid : Z) (s : st) : st :=
+  set_waiting (aremove Z.eqb sid (waiting s)) (set_incoming (aremove inckey_eqb ik (incoming s)) s).
+
+(* tokenmanager.py:74 dispatch_error: every incoming request of that remote is stopped (there are no outgoing requests here) *)
+Definition tm_dispatch_error (r : Z) (s : st) : st :=
+  fold_left (fun s e => if snd (fst e) =? r then stop_incoming (fst e) (snd e) s else s) (incoming s) s.
+
+(* messagemanager.py:157 dispatch_error: the transport reports an error about remote r. The token manager stops the
+   remote's incoming requests, every exchange with r ends (its retransmission timer is cancelled), r's backlog is dropped *)
+Definition mm_dispatch_error (r : Z) (s : st) : st :=
+  let s := tm_dispatch_error r s in
+  let s := fold_left (fun s e => if fst (fst e) =? r
+                                 then cancel (snd e) (set_exchanges (aremove key_eqb (fst e) (exchanges s)) s)
+                                 else s) (exchanges s) s in
+  set_backlogs (aremove Z.eqb r (backlogs s)) s.
+
+(* messagemanager.py:543 _send_via_transport = message_interface.send(message). [Send] records that the datagram was handed
+   to the transport; a transport that refuses it says so from inside send() by calling dispatch_error (udp6: sendmsg
+   failing with ENETUNREACH/EACCES; here: the harness's interface for the remotes in [refused]) *)
+Definition send_log (r : Z) (w : wire) (s : st) : st := emit (Send (now s) r w) s.
+Definition is_refused (r : Z) (s : st) : bool := existsb (Z.eqb r) (refused s).
+Definition refusal (r : Z) (s : st) : st :=
+  if is_refused r s then mm_dispatch_error r (emit (Refused (now s) r) s) else s.
+Definition _send_via_transport (r : Z) (w : wire) (s : st) : st := refusal r (send_log r w s).
 
 (* messagemanager.py:224 — as fixed in cd09d80: only ACK and RST are remembered *)
 Definition _store_response_for_duplicates (r : Z) (w : wire) (s : st) : st :=
@@ -135,7 +165,7 @@ Definition _store_response_for_duplicates (r : Z) (w : wire) (s : st) : st :=
     | None => s
     end.
 
-(* messagemanager.py:310 *)
+(* messagemanager.py:315 *)
 Definition _schedule_retransmit (r : Z) (w : wire) (timeout counter : Z) (s : st) : st * Z :=
   call_later timeout (TRetransmit r w timeout counter) s.
 
@@ -147,7 +177,7 @@ Definition _add_exchange (r : Z) (w : wire) (s : st) : st :=
   let '(s, h) := _schedule_retransmit r w (ack_timeout s) 0 s in
   set_exchanges (aset key_eqb (r, w_mid w) h (exchanges s)) s.
 
-(* messagemanager.py:519; [monitor] = whether a messageerror_monitor was passed.
+(* messagemanager.py:528; [monitor] = whether a messageerror_monitor was passed.
    The assertion failure leaves the method (and its callers: nothing follows the call in any of them). *)
 Definition _send_initially (r : Z) (w : wire) (monitor : bool) (s : st) : st :=
   match w_type w with
@@ -157,11 +187,11 @@ Definition _send_initially (r : Z) (w : wire) (monitor : bool) (s : st) : st :=
   | _ => _send_via_transport r w (_store_response_for_duplicates r w s)
   end.
 
-(* messagemanager.py:539 *)
+(* messagemanager.py:548 *)
 Definition _next_message_id (s : st) : st * Z :=
   (set_message_id (Z.land 65535 (1 + message_id s)) s, message_id s).
 
-(* messagemanager.py:545 *)
+(* messagemanager.py:554 *)
 Definition _send_empty_ack (r mid : Z) (s : st) : st :=
   _send_initially r {| w_type := ACK; w_code := EMPTY; w_mid := mid; w_token := []; w_payload := [] |} false s.
 
@@ -176,7 +206,7 @@ Fixpoint _continue_backlog_loop (fuel : nat) (r : Z) (s : st) : st :=
   | S fuel =>
       if has_exchange_with r s then s
       else match aget Z.eqb r (backlogs s) with
-           | None => emit (Exn (now s) KeyError) s
+           | None => s   (* as fixed in 8d04b7c: `while remote in self._backlogs and ...` — a refused release dropped it *)
            | Some [] => set_backlogs (aremove Z.eqb r (backlogs s)) s
            | Some (w :: rest) =>
                _continue_backlog_loop fuel r
@@ -196,16 +226,7 @@ Definition _remove_exchange (r mid : Z) (s : st) : st :=
   | Some h => _continue_backlog r (cancel h (set_exchanges (aremove key_eqb (r, mid) (exchanges s)) s))
   end.
 
-(* the stop() closure of TokenManager.process_request (tokenmanager.py:170): the pipe ends, on_end drops the
-   incoming_requests entry, the rendering task is cancelled *)
-Definition stop_incoming (ik : list Z * Z) (sid : Z) (s : st) : st :=
-  set_waiting (aremove Z.eqb sid (waiting s)) (set_incoming (aremove inckey_eqb ik (incoming s)) s).
-
-(* tokenmanager.py:74 dispatch_error: every incoming request of that remote is stopped (there are no outgoing requests here) *)
-Definition tm_dispatch_error (r : Z) (s : st) : st :=
-  fold_left (fun s e => if snd (fst e) =? r then stop_incoming (fst e) (snd e) s else s) (incoming s) s.
-
-(* messagemanager.py:332; the timer that fired has already left [timers] *)
+(* messagemanager.py:337; the timer that fired has already left [timers] *)
 Definition _retransmit (r : Z) (w : wire) (timeout counter : Z) (s : st) : st :=
   let key := (r, w_mid w) in
   match aget key_eqb key (exchanges s) with
@@ -213,9 +234,9 @@ Definition _retransmit (r : Z) (w : wire) (timeout counter : Z) (s : st) : st :=
   | Some h =>
       let s := cancel h (set_exchanges (aremove key_eqb key (exchanges s)) s) in
       if counter <? MAX_RETRANSMIT then
-        let s := _send_via_transport r w s in
+        (* as fixed in 11456f9: the exchange is put back before the message is handed to the transport *)
         let '(s, h) := _schedule_retransmit r w (timeout * 2) (counter + 1) s in
-        set_exchanges (aset key_eqb key h (exchanges s)) s
+        _send_via_transport r w (set_exchanges (aset key_eqb key h (exchanges s)) s)
       else
         match aget Z.eqb r (backlogs s) with
         | None => emit (Exn (now s) KeyError) s
@@ -224,7 +245,7 @@ Definition _retransmit (r : Z) (w : wire) (timeout counter : Z) (s : st) : st :=
   end.
 
 (* ------------------------------------------------------------------ responses of the application *)
-(* messagemanager.py:423 send_message, for a response [a] to request [m] (token and remote were filled in by
+(* messagemanager.py:432 send_message, for a response [a] to request [m] (token and remote were filled in by
    tokenmanager.py:128 on_event); no multicast, no shutdown *)
 Definition send_message (m : inmsg) (a : appmsg) (s : st) : st :=
   let r := i_remote m in
@@ -328,11 +349,11 @@ Definition _deduplicate_message (m : inmsg) (s : st) : st * bool :=
       (set_recent (recent s ++ [(key, None)]) s, false)
   end.
 
-(* messagemanager.py:361 *)
+(* messagemanager.py:370 *)
 Definition _process_ping (m : inmsg) (s : st) : st :=
   _send_initially (i_remote m) {| w_type := RST; w_code := EMPTY; w_mid := i_mid m; w_token := []; w_payload := [] |} false s.
 
-(* messagemanager.py:369 *)
+(* messagemanager.py:378 *)
 Definition _process_request (m : inmsg) (s : st) : st :=
   let s :=
     match i_type m with
@@ -375,7 +396,7 @@ Fixpoint min_timer (l : list (Z * Z * anytimer)) : option (Z * Z * anytimer) :=
   | x :: r => match min_timer r with None => Some x | Some y => if earlier y x then Some y else Some x end
   end.
 
-(* on_timeout of _process_request, messagemanager.py:375 *)
+(* on_timeout of _process_request, messagemanager.py:384 *)
 Definition on_timeout (r : Z) (tok : list Z) (s : st) : st :=
   match aget tokkey_eqb (r, tok) (piggy s) with
   | None => emit (Exn (now s) KeyError) s
@@ -433,6 +454,8 @@ Definition step (s : st) (e : event) : st :=
   | Advance d => advance d s
   | Respond sid a => handler_respond sid a s
   | RaiseIn sid k => handler_raise sid k s
+  | Refuse r b => set_refused (if b then r :: refused s else filter (fun x => negb (x =? r)) (refused s)) s
+  | NetError r => mm_dispatch_error r s
   end.
 
 Definition run (s : st) (evs : list event) : st := fold_left step evs s.
@@ -445,7 +468,7 @@ Fixpoint scan (s : st) (evs : list event) : list (Z * Z) :=
   end.
 
 Definition init (mid0 uniform : Z) : st :=
-  mkst 0 0 uniform mid0 [] [] [] [] [] [] [] [] 0 [].
+  mkst 0 0 uniform mid0 [] [] [] [] [] [] [] [] 0 [] [].
 
 (* the datagram of an option-less message (RFC 7252 section 3): version 1, type, token length; code; message id; token;
    payload marker and payload *)
@@ -461,6 +484,7 @@ Definition output_row (o : output) : list Z :=
   | Start t sid r mid tok => 1 :: t :: sid :: r :: mid :: tok
   | Exn t AssertionError => [2; t; 0]
   | Exn t KeyError => [2; t; 1]
+  | Refused t r => [3; t; r]
   end.
 Definition observe (s0 : st) (evs : list event) :=
   let s := run s0 evs in
@@ -491,4 +515,4 @@ Definition start_of (k : Z * Z) (o : output) : option Z :=
   end.
 Definition starts (k : Z * Z) (l : list output) : list Z :=
   flat_map (fun o => match start_of k o with Some t => [t] | None => [] end) l.
-Definition out_time (o : output) : Z := match o with Send t _ _ => t | Start t _ _ _ _ => t | Exn t _ => t end.
+Definition out_time (o : output) : Z := match o with Send t _ _ => t | Start t _ _ _ _ => t | Exn t _ => t | Refused t _ => t end.
